@@ -50,7 +50,23 @@ type EfivarDef struct {
 	Attrs               uint64
 }
 
+type Graph struct {
+	Edges  [][2]int `json:"edges"`  // indices into Funcs; method calls through interfaces / unknown receivers are resolved by name to every library function or method of that name
+	Unsafe []int    `json:"unsafe"` // functions from which a non-excused termination site is reachable
+	Fatal  []int    `json:"fatal"`  // functions that contain a non-excused termination site
+}
+
+// excused termination sites: (function, callee, guard). Read from excused_sites.json next to the
+// known findings; every entry is mirrored (and justified) in lean/GoUefi/Sites.lean, and Lean checks
+// that each extracted site is either excused there or counted as fatal here.
+type Excused struct {
+	Func, Callee, Guard, Why string
+}
+
+var excused []Excused
+
 type Facts struct {
+	Graph     Graph               `json:"graph"`
 	Formats   []Fmt               `json:"formats"`
 	Consts    map[string]uint64   `json:"consts"`
 	Guids     []GuidVar           `json:"guids"`
@@ -87,6 +103,16 @@ func main() {
 			i++
 		case "-json":
 			jsonOut = os.Args[i+1]
+			i++
+		case "-excused":
+			if b, err := os.ReadFile(os.Args[i+1]); err == nil {
+				var doc struct {
+					Sites []Excused `json:"sites"`
+				}
+				if json.Unmarshal(b, &doc) == nil {
+					excused = doc.Sites
+				}
+			}
 			i++
 		}
 	}
@@ -195,6 +221,7 @@ func main() {
 	sort.Slice(facts.Guids, func(i, j int) bool { return facts.Guids[i].Pkg+facts.Guids[i].Name < facts.Guids[j].Pkg+facts.Guids[j].Name })
 	sort.Slice(facts.Oids, func(i, j int) bool { return facts.Oids[i].Pkg+facts.Oids[i].Name < facts.Oids[j].Pkg+facts.Oids[j].Name })
 
+	resolveGraph(facts)
 	if jsonOut != "" {
 		b, _ := json.MarshalIndent(facts, "", " ")
 		os.WriteFile(jsonOut, b, 0o644)
@@ -202,6 +229,87 @@ func main() {
 	if out != "" {
 		os.WriteFile(out, []byte(leanFile(facts)), 0o644)
 	}
+}
+
+func isExcused(st Site) bool {
+	for _, e := range excused {
+		if e.Func == st.Pkg+"."+st.Func && e.Callee == st.Callee && e.Guard == st.Guard {
+			return true
+		}
+	}
+	return false
+}
+
+func resolveGraph(f *Facts) {
+	idx := map[string]int{}
+	byLast := map[string][]int{}
+	for i, fn := range f.Funcs {
+		idx[fn] = i
+		last := fn[strings.LastIndex(fn, ".")+1:]
+		byLast[last] = append(byLast[last], i)
+	}
+	seen := map[[2]int]bool{}
+	add := func(u, v int) {
+		if !seen[[2]int{u, v}] {
+			seen[[2]int{u, v}] = true
+			f.Graph.Edges = append(f.Graph.Edges, [2]int{u, v})
+		}
+	}
+	for _, e := range f.Edges {
+		u, ok := idx[e[0]]
+		if !ok {
+			continue
+		}
+		if strings.HasPrefix(e[1], "*.") {
+			for _, v := range byLast[e[1][2:]] {
+				add(u, v)
+			}
+		} else if v, ok := idx[e[1]]; ok {
+			add(u, v)
+		} else {
+			// pkg.Name where Name may be a type conversion or a method expression: resolve by last component within the package
+			pkg := e[1][:strings.LastIndex(e[1], ".")]
+			for _, v := range byLast[e[1][strings.LastIndex(e[1], ".")+1:]] {
+				if strings.HasPrefix(f.Funcs[v], pkg+".") {
+					add(u, v)
+				}
+			}
+		}
+	}
+	sort.Slice(f.Graph.Edges, func(i, j int) bool {
+		a, b := f.Graph.Edges[i], f.Graph.Edges[j]
+		return a[0] < b[0] || (a[0] == b[0] && a[1] < b[1])
+	})
+	fatal := map[int]bool{}
+	for _, st := range f.Fatal {
+		if isExcused(st) {
+			continue
+		}
+		if i, ok := idx[st.Pkg+"."+st.Func]; ok {
+			fatal[i] = true
+		}
+	}
+	unsafe := map[int]bool{}
+	for i := range fatal {
+		unsafe[i] = true
+	}
+	for changed := true; changed; {
+		changed = false
+		for _, e := range f.Graph.Edges {
+			if unsafe[e[1]] && !unsafe[e[0]] {
+				unsafe[e[0]] = true
+				changed = true
+			}
+		}
+	}
+	for i := range fatal {
+		f.Graph.Fatal = append(f.Graph.Fatal, i)
+	}
+	for i := range unsafe {
+		f.Graph.Unsafe = append(f.Graph.Unsafe, i)
+	}
+	sort.Ints(f.Graph.Fatal)
+	sort.Ints(f.Graph.Unsafe)
 }
 
 func dedupEdges(e [][2]string) [][2]string {
@@ -601,8 +709,32 @@ func leanFile(f *Facts) string {
 	}
 	w("]\n\n")
 	w("def funcs : List String := [%s]\n\n", joinQ(f.Funcs))
+	w("/-- resolved static call edges (indices into `funcs`) -/\n")
+	w("def edges : List (Nat × Nat) := [")
+	for i, e := range f.Graph.Edges {
+		if i > 0 {
+			w(", ")
+		}
+		if i%12 == 0 {
+			w("\n  ")
+		}
+		w("(%d, %d)", e[0], e[1])
+	}
+	w("]\n\n")
+	w("/-- functions containing a termination site that is not excused (excused_sites.json) -/\n")
+	w("def fatalFuncs : List Nat := %s\n\n", leanInts(f.Graph.Fatal))
+	w("/-- candidate: functions from which a fatal function is reachable (checked, not trusted, by Lean) -/\n")
+	w("def unsafeFuncs : List Nat := %s\n\n", leanInts(f.Graph.Unsafe))
 	w("end GoUefi.Extracted\n")
 	return sb.String()
+}
+
+func leanInts(xs []int) string {
+	q := []string{}
+	for _, x := range xs {
+		q = append(q, fmt.Sprint(x))
+	}
+	return "[" + strings.Join(q, ", ") + "]"
 }
 
 func joinQ(xs []string) string {
